@@ -1219,6 +1219,43 @@ func init() {
 	})
 
 	// unicode/utf8
+	reg("unicode/utf8.DecodeRuneInString", func(in *Interp, fr *frame, a []Value) Value {
+		bs := strArg(a[0]).bytes()
+		if len(bs) == 0 {
+			return Tuple{mkInt(types.Int32, int64(utf8.RuneError)), goInt(0)}
+		}
+		r, w := in.decodeRune(bs, 0)
+		return Tuple{r, goInt(w)}
+	})
+	reg("unicode/utf8.DecodeLastRuneInString", func(in *Interp, fr *frame, a []Value) Value {
+		// utf8.DecodeLastRuneInString, step by step
+		bs := strArg(a[0]).bytes()
+		end := len(bs)
+		if end == 0 {
+			return Tuple{mkInt(types.Int32, int64(utf8.RuneError)), goInt(0)}
+		}
+		start := end - 1
+		if in.byteIn(bs[start], 0x00, 0x7F) {
+			return Tuple{symInt(types.Int32, ZExt(32, bs[start].Term())), goInt(1)}
+		}
+		lim := end - utf8.UTFMax
+		if lim < 0 {
+			lim = 0
+		}
+		for start--; start >= lim; start-- {
+			if !in.byteIn(bs[start], 0x80, 0xBF) { // utf8.RuneStart
+				break
+			}
+		}
+		if start < 0 {
+			start = 0
+		}
+		r, w := in.decodeRune(bs[:end], start)
+		if start+w != end {
+			return Tuple{mkInt(types.Int32, int64(utf8.RuneError)), goInt(1)}
+		}
+		return Tuple{r, goInt(w)}
+	})
 	reg("unicode/utf8.RuneCountInString", func(in *Interp, fr *frame, a []Value) Value { return goInt(len(in.strToRunes(strArg(a[0])))) })
 	reg("unicode/utf8.ValidString", func(in *Interp, fr *frame, a []Value) Value {
 		s := strArg(a[0])
